@@ -137,3 +137,98 @@ def snapshot(s):
 def rng_state(s):
     st = s.rng.bit_generator.state
     return (st['state']['state'], st['state']['inc'], st['has_uint32'], st['uinteger'])
+
+
+# ---------------------------------------------------------------------------------------------- scripted bounds (mode S)
+
+class GridBound:
+    """stands in for nautilus.bounds.NautilusBound in scripted-oracle drives: a bound is a set of cells of a K^d grid (the cells
+    holding the points above the threshold), so regions are arbitrary — non-nested, disconnected — and cheap.  The real Sampler
+    control flow runs unchanged on top of it."""
+
+    K = 5
+    EXTRA = 0
+
+    @classmethod
+    def compute(cls, points, log_l, log_l_min, log_v_target, enlarge_per_dim=1.1, n_points_min=None, split_threshold=100,
+                periodic=None, n_networks=4, neural_network_kwargs={}, pool=None, rng=None):
+        b = cls()
+        b.n_dim = points.shape[1]
+        sel = points[log_l >= log_l_min]
+        b.cells = np.unique(cls.cell_of(sel), axis=0)
+        b.rng = rng if rng is not None else np.random.default_rng()
+        if cls.EXTRA:      # "enlargement": a few extra cells, so that bounds overlap earlier shells in irregular ways
+            extra = b.rng.integers(0, cls.K, size=(cls.EXTRA, b.n_dim))
+            b.cells = np.unique(np.vstack([b.cells, extra]), axis=0)
+        b.points = np.zeros((0, b.n_dim))
+        b.n_sample = 0
+        b.n_reject = 0
+        return b
+
+    @classmethod
+    def cell_of(cls, points):
+        return np.clip(np.floor(np.asarray(points) * cls.K).astype(int), 0, cls.K - 1)
+
+    def contains(self, points):
+        points = np.atleast_2d(points)
+        c = self.cell_of(points)
+        key = c @ (self.K ** np.arange(self.n_dim))
+        mine = self.cells @ (self.K ** np.arange(self.n_dim))
+        inside = np.isin(key, mine) & np.all((points >= 0) & (points < 1), axis=1)
+        return inside
+
+    def sample(self, n_points=100, return_points=True, pool=None):
+        while len(self.points) < n_points:
+            idx = self.rng.integers(0, len(self.cells), size=200)
+            pts = (self.cells[idx] + self.rng.random((200, self.n_dim))) / self.K
+            self.points = np.vstack([self.points, pts])
+            self.n_sample += 200
+        if return_points:
+            out = self.points[:n_points]
+            self.points = self.points[n_points:]
+            return out
+
+    @property
+    def log_v(self):
+        return float(np.log(len(self.cells) / self.K ** self.n_dim))
+
+    n_ell = 0
+    n_net = 0
+
+    def reset(self, rng=None):
+        self.points = np.zeros((0, self.n_dim))
+        if rng is not None:
+            self.rng = rng
+
+
+class GridLikelihood(Likelihood):
+    """per-cell likelihood table (plateaus, -inf cells, ties) plus an optional small smooth term"""
+
+    def __init__(self, table, smooth=0.0, blob=None):
+        super().__init__('grid', blob=blob)
+        self.table = np.asarray(table, dtype=float)
+        self.smooth = smooth
+
+    def one(self, x):
+        x = np.asarray(x, dtype=float)
+        c = tuple(GridBound.cell_of(x[None, :])[0])
+        ll = float(self.table[c] - self.smooth * np.sum((x - 0.5) ** 2))
+        serial = self.offset + len(self.calls)
+        self.calls.append((x.tobytes(), ll))
+        return ll if self.blob is None else (ll, np.int64(serial))
+
+
+def make_grid_sampler(table_seed, n_live=40, n_batch=10, n_update=None, seed=0, blob='serial', smooth=0.5, n_dim=2, levels=4, p_inf=0.1,
+                      extra=0, K=5):
+    """the real Sampler over scripted grid bounds and a random per-cell likelihood table"""
+    import nautilus.sampler as ns
+    from nautilus import Sampler
+    ns.NautilusBound = GridBound
+    GridBound.K, GridBound.EXTRA = K, extra
+    rng = np.random.default_rng(table_seed)
+    table = rng.integers(0, levels, size=(GridBound.K,) * n_dim).astype(float) * 3.0
+    table[rng.random(table.shape) < p_inf] = -np.inf
+    table.flat[int(rng.integers(0, table.size))] = levels * 3.0 + 2.0       # at least one finite peak
+    lk = GridLikelihood(table, smooth=smooth, blob=blob)
+    s = Sampler(identity_prior, lk, n_dim=n_dim, n_live=n_live, n_batch=n_batch, n_update=n_update, n_networks=0, seed=seed)
+    return s, lk
